@@ -34,13 +34,18 @@ def specCopies (cfg : SysConfig) (a : Name) (r : SysRecord) : Nat :=
     (chain cfg.routing (comps r.target).length (effective cfg.routing r.target)).count a
   else 0
 
-/-- the bytes one delivery of the record adds to the file of `a` -/
-def specLine (asts : Name → List Pat) (a : Name) (r : SysRecord) : Bytes :=
-  utf8 (denotePats r.env r.record (asts a))
+/-- the bytes one delivery of the record adds to the file of `a`: the meaning of `a`'s pattern on
+the record, or — for an appender with the JSON encoder (stage 2 (B)) — the JSON line of the record
+(Json/Model.lean `jsonLine`; `C01_sys_json_line_meets_c12_spec`: it is a line the C12 specification
+accepts for this record) -/
+def specLine (cfg : SysConfig) (asts : Name → List Pat) (a : Name) (r : SysRecord) : Bytes :=
+  match (cfg.app a).kind with
+  | .pattern => utf8 (denotePats r.env r.record (asts a))
+  | .json => utf8 (jsonOf r)
 
 /-- what one record adds to the file of `a` -/
 def specContribution (cfg : SysConfig) (asts : Name → List Pat) (a : Name) (r : SysRecord) : Bytes :=
-  (List.replicate (specCopies cfg a r) (specLine asts a r)).flatten
+  (List.replicate (specCopies cfg a r) (specLine cfg asts a r)).flatten
 
 /-- the file of `a` after the history -/
 def specFile (cfg : SysConfig) (asts : Name → List Pat) (a : Name) (rs : List SysRecord) : Bytes :=
